@@ -42,6 +42,11 @@ def idx(n, t, subs):
     return {"k": "idx", "n": n, "t": t, "subs": subs}
 
 
+def arr(n, t):
+    """a whole array as an argument: A()"""
+    return {"k": "arr", "n": n, "t": t}
+
+
 def bin_(op, l, r):
     return {"k": "bin", "op": op, "l": l, "r": r}
 
@@ -172,7 +177,8 @@ def rtest(lo, hi):
 def _params(params):
     out = []
     for p in params:
-        out.append({"n": p[0], "t": p[1], "ty": p[2] if len(p) > 2 else ""})
+        # ("X", "I", "", True): an array parameter X%()
+        out.append({"n": p[0], "t": p[1], "ty": p[2] if len(p) > 2 else "", "arr": bool(p[3]) if len(p) > 3 else False})
     return out
 
 
